@@ -70,6 +70,15 @@ ADMIN_ROUTES = {
 ADMIN_WHO = {'developer': ('dave', 1, 0), 'auth': ('auth', 0, 1), 'service-account': ('ci', 0, 1), 'service-account-grafana': ('grafana', 0, 1),
              'plain-user': ('carol', 0, 0), 'auth-namesake': ('Auth', 0, 0), 'inactive-developer': ('dave', 1, 0)}
 WHO = ['owner', 'mate', 'stranger', 'developer', 'namesake']     # namesake = account `Alice` (owner is `alice`), no memberships
+# data-level read routes: (method, path, has batch_id?)
+DATA_ROUTES = {
+    'jobs_v1': '/api/v1alpha/batches/{batch_id}/jobs', 'jobs_v2': '/api/v2alpha/batches/{batch_id}/jobs',
+    'group_jobs_v1': '/api/v1alpha/batches/{batch_id}/job-groups/{job_group_id}/jobs',
+    'group_jobs_v2': '/api/v2alpha/batches/{batch_id}/job-groups/{job_group_id}/jobs',
+    'job_groups_v1': '/api/v1alpha/batches/{batch_id}/job-groups',
+    'batches_v1': '/api/v1alpha/batches', 'batches_v2': '/api/v2alpha/batches',
+}
+STATE_WORDS = ['pending', 'ready', 'creating', 'running', 'live', 'cancelled', 'error', 'failed', 'bad', 'success', 'done']
 LISTINGS = ['/api/v1alpha/batches', '/api/v2alpha/batches', '/api/v1alpha/batches/completed']
 KEY_CI = 'username filters on batches.user / billing_project_users.user are case-insensitive: a namesake account passes them'
 # keys of the two defects repaired by 4c50f4344 (kept so that a regression is reported under a stable name)
@@ -102,7 +111,10 @@ class C14(Prop):
                   'authenticator + userinfo cache (Model/SessionCache) a request is let through only if the auth service called the user '
                   'active less than one cache lifetime ago (Session.staleness_bounded, all schedules); the real AuthServiceAuthenticator with '
                   'its real TimeLimitedMaxSizeCache is compared with that model on random request / deactivate / revoke schedules under a '
-                  'patched time.monotonic_ns.')
+                  'patched time.monotonic_ns. Data level: the real job / job-group / batch list handlers run over minisql with two tenants\' data '
+                  'and queries drawn from the v1 and v2 query grammars (every state keyword, negations, has:, key=value, ids); every returned '
+                  'row must belong to the requested batch / to a billing project of the caller (listed_jobs_belong_to_batch for the model of '
+                  'the WHERE clause).')
     level_note = ('PARTIAL for the owner-only mutators: `mutate` is a hand model of which check comes first, tied to the real handlers only by '
                   'the 39 scenario runs over minisql (MySQL itself is not available; the deprecated close_batch answers 500 to every caller on the current schema — Unknown column job_groups.deleted — so its owner case is not run). The decorator semantics (`guard`) are tied by exhaustive '
                   'differential runs (68 routes x 256 callers, plus name-sake variants and billing-administration requests with real bodies + DB diff) with the session lookup stubbed at Authenticator._fetch_userdata and aiohttp '
@@ -263,6 +275,30 @@ class C14(Prop):
         db.execute("UPDATE batches SET time_completed = 1 WHERE id = %s", (self.A1,))
         self.snap_done = db.snapshot()
         db.restore(self.snap_full)
+        # for the data-level cases: two tenants with committed jobs in several states
+        self.D = self.batch_for[(False, False, False)]       # bob's batch in bp_x (alice is not a member)
+
+        async def fast(bid, user, tok, n):
+            body = {'update': {'token': tok, 'n_jobs': n, 'n_job_groups': 0},
+                    'bunch': [self.batchapp.job_spec(i, attributes={'name': f'j{i}'} if i % 2 else None) for i in range(1, n + 1)], 'job_groups': []}
+            st = await self._call('POST', MUTATORS['update_batch_fast'][2], {'batch_id': bid}, self.ud(user), body)
+            if st[0] != 200:
+                raise MachineryError(f'scenario: {user} could not submit jobs to batch {bid}: {st}')
+        db.restore(self.snap_open)
+        await fast(self.A2, 'alice', 'TA', 5)
+        await fast(self.D, 'bob', 'TB', 6)
+        for bid, states in ((self.A2, ['Success', 'Failed', 'Running', 'Ready', 'Cancelled']),
+                            (self.D, ['Success', 'Failed', 'Error', 'Running', 'Cancelled', 'Creating'])):
+            for i, stt in enumerate(states, 1):
+                db.execute('UPDATE jobs SET state = %s WHERE batch_id = %s AND job_id = %s', (stt, bid, i))
+        db.execute('UPDATE batches SET time_completed = 1 WHERE id IN (%s, %s)', (self.A2, self.D))
+        self.snap_data = db.snapshot()
+        # minisql must give AND precedence over OR (unit test of the interpreter on the shape the query builders produce)
+        rows = db.query("SELECT batch_id, job_id FROM jobs WHERE batch_id = %s AND (jobs.state = %s) OR (jobs.state = %s)", (self.A2, 'Success', 'Failed'))
+        got = sorted((r['batch_id'], r['job_id']) for r in rows)
+        if got != sorted([(self.A2, 1), (self.A2, 2), (self.D, 2)]):
+            raise MachineryError(f'minisql does not parse `a AND b OR c` as `(a AND b) OR c`: {got}')
+        db.restore(self.snap_full)
         self.passthrough = False
 
     def _request(self, method, path_t, match, body):
@@ -306,6 +342,18 @@ class C14(Prop):
                 yield {'kind': 'admin', 'route': key, 'who': who}
         for _ in range(400 if tier == 'quick' else 6000):
             yield {'kind': 'session', 'events': self.gen_schedule(rng)}
+        # data level: every state keyword alone and negated on every job listing, then random queries from the grammars
+        for route in ('jobs_v1', 'group_jobs_v1'):
+            for w in STATE_WORDS:
+                for q in (w, '!' + w, w + ' has:name', 'name=j1 ' + w):
+                    yield {'kind': 'data', 'route': route, 'who': 'alice', 'q': q}
+        for route in ('jobs_v2', 'group_jobs_v2'):
+            for w in STATE_WORDS:
+                for q in (f'state = {w}', f'state != {w}', f'state = {w}\nname = j1'):
+                    yield {'kind': 'data', 'route': route, 'who': 'alice', 'q': q}
+        for _ in range(300 if tier == 'quick' else 3000):
+            route = rng.choice(list(DATA_ROUTES))
+            yield {'kind': 'data', 'route': route, 'who': rng.choice(['alice', 'alice', 'bob', 'carol', 'dave']), 'q': self.gen_query(rng, route)}
         for path in LISTINGS:
             for who in WHO:
                 yield {'kind': 'list', 'route': path, 'who': who}
@@ -323,6 +371,38 @@ class C14(Prop):
                     variants = [('n/a', 'n/a')]
                 for tok, payload in variants:
                     yield {'kind': 'owner', 'handler': h, 'who': who, 'token': tok, 'payload': payload}
+
+    @staticmethod
+    def gen_query(rng, route):
+        """a query string from the grammar of the v1 (space separated terms, `!` negation) or v2 (one `left op right` per line) parser"""
+        v2 = route.endswith('_v2')
+        batches = route.startswith('batches')
+        terms = []
+        for _ in range(rng.choice([0, 1, 1, 2, 3])):
+            r = rng.random()
+            if batches:
+                if v2:
+                    terms.append(rng.choice(['state = running', 'state != complete', 'user = alice', 'user = bob', 'billing_project = bp_x',
+                                             'billing_project != bp_alice_1', 'batch_id >= 2', 'name = b3', '"b3"', 'b', 'cost >= 0',
+                                             'state = open', 'user != alice', 'billing_project =~ bp']))
+                else:
+                    t = rng.choice(['open', 'closed', 'complete', 'running', 'cancelled', 'failure', 'success', 'user:alice', 'user:bob',
+                                    'billing_project:bp_x', 'billing_project:bp_alice_1', 'has:name', 'name=b3', 'name=b4'])
+                    terms.append(('!' if rng.random() < 0.3 else '') + t)
+            elif v2:
+                w = rng.choice(STATE_WORDS)
+                terms.append(rng.choice([f'state = {w}', f'state != {w}', f'state == {w}', 'name = j1', 'name != j3', 'name =~ j', '"j1"', 'j',
+                                         f'job_id >= {rng.randint(1, 4)}', f'job_id < {rng.randint(2, 6)}', 'instance = x', 'cost >= 0',
+                                         'duration >= 0']))
+            else:
+                if r < 0.55:
+                    t = rng.choice(STATE_WORDS)
+                elif r < 0.75:
+                    t = rng.choice(['has:name', 'has:nope'])
+                else:
+                    t = rng.choice(['name=j1', 'name=j3', 'name=zz'])
+                terms.append(('!' if rng.random() < 0.3 else '') + t)
+        return ('\n' if v2 else ' ').join(terms)
 
     @staticmethod
     def gen_schedule(rng):
@@ -352,6 +432,8 @@ class C14(Prop):
             return ['adm %d %d' % (c['who'] == 'developer', c['who'] == 'auth')]
         if c['kind'] == 'session':
             return ['sess %d %s' % (TTL_MS, ' '.join(c['events']))]
+        if c['kind'] == 'data':
+            return ['rows']
         if c['kind'] == 'list':
             return ['list %d %d' % (c['who'] in ('owner', 'mate'), c['who'] == 'namesake')]
         m = MUTATORS[c['handler']][0]
@@ -553,9 +635,67 @@ class C14(Prop):
         self._cache[k] = out
         return out
 
+    def _data(self, c):
+        """a read route with its REAL handler body and the real query builders over minisql: (status, rows, what the caller asked for)"""
+        k = json.dumps(c, sort_keys=True)
+        if k in self._cache:
+            return self._cache[k]
+        from urllib.parse import quote
+        path_t = DATA_ROUTES[c['route']]
+        who = c['who']
+        # alice reads her batch A2; bob (project-mate in bp_alice_1) reads A2 too; carol / dave are not admitted anywhere relevant
+        bid = self.A2
+        match = {}
+        if '{batch_id}' in path_t:
+            match['batch_id'] = bid
+        if '{job_group_id}' in path_t:
+            match['job_group_id'] = 0
+        path = path_t
+        for kk, v in match.items():
+            path = path.replace('{%s}' % kk, str(v))
+        self.db.restore(self.snap_data)
+        self.passthrough = True
+        try:
+            req = self.mk('GET', path + '?q=' + quote(c['q']), match_info={kk: str(v) for kk, v in match.items()}, app=self.app)
+            self.cur_userdata = self.ud(who, dev=1 if who == 'dave' else 0)
+            try:
+                resp = self.loop.run_until_complete(self.real[('GET', path_t)].handler(req))
+                body = json.loads(resp.body) if resp.body else {}
+                res = (resp.status, body)
+            except self.web.HTTPException as e:
+                res = (e.status, {})
+            except Exception as e:
+                res = (500, {'error': f'{type(e).__name__}: {e}'})
+        finally:
+            self.passthrough = False
+        self._cache[k] = res
+        return res
+
+    def _data_foreign(self, c):
+        """rows of the answer the caller must not see"""
+        status, body = self._data(c)
+        if not isinstance(body, dict):
+            return []
+        who = c['who']
+        bad = []
+        if c['route'].startswith('batches'):
+            member_of = {'alice': {'bp_alice_1'}, 'bob': {'bp_alice_1', 'bp_auth_1', 'bp_x'}, 'carol': {'bp_carol'}, 'dave': {'bp_dave'}}[who]
+            for b in body.get('batches', []):
+                if b.get('billing_project') not in member_of:
+                    bad.append(('batch', b.get('id'), b.get('billing_project')))
+        else:
+            for key in ('jobs', 'job_groups'):
+                for r in body.get(key, []):
+                    if r.get('batch_id') != self.A2:
+                        bad.append((key[:-1], r.get('batch_id'), r.get('job_id', r.get('job_group_id'))))
+        return bad
+
     def impl(self, c):
         if c['kind'] == 'guard':
             return [self._guard(c)[1]]
+        if c['kind'] == 'data':
+            bad = self._data_foreign(c)
+            return ['only-permitted-rows' if not bad else f'foreign-rows:{len(bad)}']
         if c['kind'] == 'session':
             return [','.join(str(st) for _, st in self._session(c))]
         if c['kind'] == 'admin':
@@ -592,6 +732,13 @@ class C14(Prop):
                         f'class {cls}')
             if not entered and writes:
                 return f'denied-but-wrote: {method} {path_t} ({r["handler"]}) refused [{who}] but executed {writes[0][:80]!r}'
+            return None
+        if c['kind'] == 'data':
+            bad = self._data_foreign(c)
+            if bad:
+                status, _ = self._data(c)
+                return (f'data leak: GET {DATA_ROUTES[c["route"]]} (batch {self.A2}) with q={c["q"]!r} as {c["who"]} answered {status} with rows the caller '
+                        f'may not read (kind, batch, id / billing project): {bad[:6]}')
             return None
         if c['kind'] == 'session':
             # the property over time: a request arriving one cache lifetime or more after the auth service stopped calling the user
@@ -658,6 +805,10 @@ class C14(Prop):
             tags = ['guard:' + outcome, 'class:' + cls]
             nontrivial = outcome != 'allow' or cls != 'pub'
             return (json.dumps(c, sort_keys=True) if nontrivial else None, tags)
+        if c['kind'] == 'data':
+            status, body = self._data(c)
+            n = sum(len(body.get(kk, [])) for kk in ('jobs', 'job_groups', 'batches')) if isinstance(body, dict) else 0
+            return (json.dumps(c, sort_keys=True) if n else None, [f'data:{c["route"]}:{status}:{"rows" if n else "empty"}'])
         if c['kind'] == 'session':
             sts = line.split(',')
             changed = any(e in ('s1', 's2') for e in c['events'])
